@@ -30,7 +30,8 @@ structure Doc where
 def envOf (j : Json) : Except String (Jtp.Env Doc) := do
   let worldA ← arr j "world"
   let world ← worldA.toList.mapM fun r => do
-    pure ((← str r "url"), (← str r "resp"), (← str r "fault"))
+    pure ((← str r "key"), (← str r "resp"), (← str r "fault"))
+  let hosts ← strList j "hosts"
   let resolveA ← arr j "resolve"
   let resolve ← resolveA.toList.mapM fun r => do
     let p ← r.getArr?
@@ -51,13 +52,29 @@ def envOf (j : Json) : Except String (Jtp.Env Doc) := do
       | none => none
     pure (b.toList, d)
   let urltable ← j.getObjVal? "urltable"
-  let schemeOf (u : Str) : Str := match urltable.getObjVal? (String.ofList u) with
-    | .ok rec => match rec.getObjVal? "scheme" with | .ok (Json.str s) => s.toList | _ => []
+  let fieldOf (u : Str) (k : String) : Str := match urltable.getObjVal? (String.ofList u) with
+    | .ok rec => match rec.getObjVal? k with | .ok (Json.str s) => s.toList | _ => []
+    | _ => []
+  let schemeOf (u : Str) : Str := fieldOf u "scheme"
+  let hostFaults : List Str := match j.getObjVal? "hostfaults" with
+    | .ok (Json.arr a) => a.toList.filterMap fun hf =>
+        match hf.getObjVal? "h" with
+        | .ok v => (v.getNat?).toOption.bind fun i => hosts[i]?
+        | _ => none
     | _ => []
   pure { https := fun u => schemeOf u = "https".toList,
-         serve := fun u => match world.find? (fun r => r.1 = u) with
-           | some (_, resp, fault) => if fault.isEmpty then some resp else none
-           | none => some "HTTP/1.0 404 Not Found\r\nContent-Type: text/plain\r\n\r\nno route".toList,
+         serve := fun u =>
+           -- the connection goes to the URL's host; the route is looked up by request target
+           let host := fieldOf u "host"
+           let uri := fieldOf u "uri"
+           let pathOnly := uri.takeWhile (· != '?')
+           if !hosts.contains host || hostFaults.contains host then none   -- dial / handshake fails
+           else match world.find? (fun r => r.1 = host ++ ' ' :: uri) with
+             | some (_, resp, fault) => if fault.isEmpty then some resp else none
+             | none =>
+               match world.find? (fun r => uri.contains '?' && r.1 = host ++ ' ' :: (pathOnly ++ ['?', '*'])) with
+               | some (_, resp, fault) => if fault.isEmpty then some resp else none
+               | none => some "HTTP/1.0 404 Not Found\r\nContent-Type: text/plain\r\n\r\nno route".toList,
          resolve := fun b v => match resolve.find? (fun r => r.1 = b ∧ r.2.1 = v) with
            | some (_, _, t) => t
            | none => none,
@@ -82,18 +99,31 @@ def fetchSeqOp (j : Json) : Except String Res := do
   let mut out : Array Json := #[]
   let mut hops := 0
   let mut okReq := true
+  let lossy : Bool := match j.getObjVal? "world" with
+    | .ok (Json.arr a) => a.any fun r => (r.getObjVal? "lossy").toOption == some (Json.bool true)
+    | _ => false
   let mut transparent := true
   for (t, ir) in targets.zip implRounds do
     -- the cache key is link.String()
     let key := field t "str"
+    if (urltable.getObjVal? (String.ofList t)).toOption == some Json.null then
+      out := out.push (Json.mkObj [("badurl", true)])
+      continue
     let st := Jtp.get env tol budget cache (if key.isEmpty then t else key)
     cache := st.cache
     hops := hops + st.requests.length
     let res := match st.res with
       | .ok d src => Json.mkObj [("ok", Json.mkObj [("src", js src), ("stamp", js d.stamp)])]
       | .err => Json.mkObj [("err", true)]
-    let reqs := st.requests.map fun u =>
+    -- a failed dial / handshake never reaches the simulator's request log
+    let reqs := (st.requests.filter fun u => (env.serve u).isSome).map fun u =>
       Json.arr #[js (field u "host"), js (Jtp.request (field u "uri") (field u "host") accept)]
+    -- after a TCP reset the kernel may discard bytes the client had not read yet: an error is
+    -- then also a correct outcome (never a different document)
+    let implErr := match ir.getObjVal? "err" with | .ok _ => true | _ => false
+    if lossy && implErr then
+      out := out.push ir
+      continue
     out := out.push (res.setObjVal! "requests" (Json.arr reqs.toArray))
     -- cache transparency on the implementation's output: what it returned equals what a fetch
     -- with an empty cache returns in this world
@@ -117,10 +147,49 @@ def fetchSeqOp (j : Json) : Except String Res := do
       lines.length == 5 && (lines[0]?.getD "").startsWith "GET " && (lines[0]?.getD "").endsWith " HTTP/1.0" &&
       (lines[1]?.getD "").startsWith "Host: " && (lines[2]?.getD "").startsWith "Accept: " &&
       lines[3]? == some "" && lines[4]? == some ""
+  -- C05: every fetch returns within (connections + 1) · (dial timeout + deadline) plus slack
+  let timeoutS := ((j.getObjVal? "timeout_s").toOption.bind (·.getNat?.toOption)).getD 0
+  let msA : List Nat := match j.getObjVal? "ms" with
+    | .ok (Json.arr a) => a.toList.map fun v => (v.getNat?).toOption.getD 0
+    | _ => []
+  let reqCounts : List Nat := implRounds.map fun ir => match ir.getObjVal? "requests" with
+    | .ok (Json.arr a) => a.size
+    | _ => 0
+  let timely := timeoutS == 0 || (msA.zip reqCounts).all fun (ms, n) => ms ≤ (n + 1) * (2 * timeoutS * 1000) + 1500
   let canary := ((j.getObjVal? "canaryhits").toOption.bind (·.getNat?.toOption)).getD 0
   -- strip timing from the implementation's rounds happens in the harness-independent comparison:
   pure { model := Json.arr out,
-         preds := [("same_result_as_cold_cache", transparent), ("requests_wellformed", okReq), ("no_plaintext_connection", canary == 0)],
+         preds := [("same_result_as_cold_cache", transparent), ("returns_within_time_bound", timely), ("requests_wellformed", okReq), ("no_plaintext_connection", canary == 0)],
          nontrivial := hops ≥ 2 }
+
+end Ops
+
+namespace Ops
+
+/-- `client.ResolveWebfinger`: the request it issues and how it reads the JRD answer. -/
+def webfingerOp (j : Json) : Except String Res := do
+  let impl := (j.getObjVal? "impl").toOption.getD Json.null
+  let accept ← str j "accept"
+  let canary := ((j.getObjVal? "canaryhits").toOption.bind (·.getNat?.toOption)).getD 0
+  let recorded : List Str := match impl.getObjVal? "requests" with
+    | .ok (Json.arr a) => a.toList.filterMap fun p => match p with
+      | Json.arr q => match q[1]? with | some (Json.str s) => some s.toList | _ => none
+      | _ => none
+    | _ => []
+  -- the only request it may issue: GET /.well-known/webfinger?<encoded query> to the handle's domain
+  let expected : Option Str := match j.getObjVal? "query", j.getObjVal? "domain" with
+    | .ok (Json.str q), .ok (Json.str d) =>
+      some (Jtp.request ("/.well-known/webfinger?".toList ++ q.toList) d.toList accept)
+    | _, _ => none
+  let wellFormed := recorded.all fun raw =>
+    let lines := (String.ofList raw).splitOn "\r\n"
+    lines.length == 5 && lines[3]? == some "" && lines[4]? == some ""
+  let asExpected := recorded.all fun raw => some raw == expected
+  -- the model does not predict success (DNS/TLS decide whether the hand-built host is reachable):
+  -- it states what may be on the wire if anything is
+  pure { model := impl,
+         preds := [("requests_wellformed", wellFormed), ("request_is_the_webfinger_query", asExpected),
+                   ("at_most_one_request", recorded.length ≤ 1), ("no_plaintext_connection", canary == 0)],
+         nontrivial := !recorded.isEmpty }
 
 end Ops
